@@ -61,8 +61,9 @@ def rule_R14_1(ctx):
                "the call evaluator must evaluate the argument list once and "
                "the callee once; found %s" % [(c.res, f.in_any_loop(c.bb)) for c in pre_body])
     # list items: single forward loop
-    lists = [g for g in prog.hand_fns() if not g.is_closure and g.locals
-             and g.locals[0].startswith("std::result::Result<std::vec::Vec<eval::value::SourcedValue>")
+    lists = [g for g in prog.hand_fns() if not g.is_closure and not g.from_expansion and g.locals
+             and "std::vec::Vec<eval::value::SourcedValue>" in g.locals[0]
+             and g.locals[0].startswith("std::result::Result<")
              and any(t == "&std::vec::Vec<ast::ListItem>" for t in g.locals[1:g.arg_count + 1])]
     if not r.require_floor("list-item evaluator", len(lists), 1):
         return r
